@@ -35,9 +35,9 @@ def main():
     for L in (range(0, 13) if TIER == 'quick' else list(range(0, 25)) + [16388, 16389, 16400]):
         jobs.append(dict(harness='h_zlib.cpp', ll=llz, entry='h_zlib_uncompress', params={'len': L}, models=['zlib_contract'], known=ck.known, eng_opts=eng_opts,
                          native_entry_for=nmap, allow_throw='none'))
-    for L in (range(0, 7) if TIER == 'quick' else list(range(0, 13)) + [16384, 16385, 16390]):
+    for L in (list(range(0, 7)) + [16383, 16384, 32768] if TIER == 'quick' else list(range(0, 13)) + [16383, 16384, 16385, 16390, 32768, 49152]):
         jobs.append(dict(harness='h_zlib.cpp', ll=llz, entry='h_zlib_compress', params={'len': L}, models=['zlib_contract'], known=ck.known, eng_opts=eng_opts,
-                         native_entry_for=nmap, allow_throw='std'))
+                         native_entry_for=dict(nmap, **{'assert': 'h_zlib_native_roundtrip'}), allow_throw='std'))
     ck.add_results(run_jobs(jobs))
     # translation validation of the executor against the native build on concrete payloads (seeded)
     import random
